@@ -17,7 +17,8 @@ StepsAll == {-3, -2, -1, 1, 2, 3}
 StepsSmall == {-2, -1, 1, 3}
 LenVecs == UNION {[1..n -> 0..MaxLen] : n \in 0..MaxRows}
 ArrOf(lens) == <<"i8", Unflatten([i \in 1..Total(lens) |-> 9 + i], lens)>>
-Bnds == (-Bd..Bd) \cup {NONE}
+Far == 1073741824                         \* 2^30: a bound far beyond any row, still inside 32-bit index arithmetic (times a view's stride it is not)
+Bnds == (-Bd..Bd) \cup {NONE, Far}
 StepSet == Steps \cup {NONE}
 Slices == {<<"slice", a, b, s>> : a \in Bnds, b \in Bnds, s \in StepSet}
 Ints == {<<"int", i>> : i \in -Bd..(Bd - 1)}
